@@ -32,32 +32,46 @@ Definition c4_leb (a b : c4) : bool :=
 Definition c4_eqb (a b : c4) : bool :=
   N.eqb (rxb a) (rxb b) && N.eqb (txb a) (txb b) && N.eqb (rxp a) (rxp b) && N.eqb (txp a) (txp b).
 
-(* Which repairs are applied.  All false = the code as it is today. *)
+Definition c4_max (a b : c4) : c4 := c4_map2 N.max a b.
+
+(* Which repairs are applied.
+   fix_counters, fix_stop, fix_active: committed in /repo (7e92d8e, e0693a6, d70a5ae).
+   fix_sent, fix_order, fix_l2stop: recorded findings, not in /repo HEAD. *)
 Record variant := Variant {
   fix_counters : bool;   (* applyVPPCounters also treats "cumulative < last reported" as a regress *)
   fix_stop : bool;       (* handleSessionRelease sends Stop only when it removed an acctCache entry *)
-  fix_active : bool      (* handleSessionLifecycle adopts a checkpoint-restored entry instead of overwriting it *)
+  fix_active : bool;     (* handleSessionLifecycle adopts a checkpoint-restored entry instead of overwriting it *)
+  fix_sent : bool;       (* a high-water mark of every value SENT (acknowledged or not) is kept, checkpointed, and
+                            used as the floor of the next report *)
+  fix_order : bool;      (* the provider calls of one session reach the provider in the order they were issued *)
+  fix_l2stop : bool      (* the Stop of an l2gw session reads the l2gw stats segment like its Interims *)
 }.
-Definition repaired : variant := Variant true true true.
-Definition defective : variant := Variant false false false.
+(* the code at /repo HEAD, with any subset of the three open repairs *)
+Definition V (s o l : bool) : variant := Variant true true true s o l.
+Definition head : variant := V false false false.
+Definition repaired : variant := V true true true.
+Definition defective : variant := Variant false false false false false false.   (* the code as first found *)
 
 (* AccountingSession: the fields the property depends on *)
 Record sess := Sess {
   ifx : N;            (* swIfIndex (for an l2gw session: the access-direction stats entry index) *)
   hfx : N;            (* l2gwHandoffIndex (handoff-direction stats entry index; not checkpointed) *)
   last : c4;          (* lastReported*      *)
+  hw : c4;            (* fix_sent only: lastSent*, the largest values ever sent for the session; otherwise zero *)
   base : c4;          (* currentBaseline*   *)
   prior : c4;         (* priorDelta*        *)
   pending : bool      (* pendingSessionConfirm *)
 }.
-Definition fresh (i h : N) : sess := Sess i h c4z c4z c4z false.
+Definition fresh (i h : N) : sess := Sess i h c4z c4z c4z c4z false.
+(* the floor of the next report *)
+Definition floor (v : variant) (e : sess) : c4 := if fix_sent v then c4_max (last e) (hw e) else last e.
 
 (* applyVPPCounters, first half: regress detection and re-baselining *)
 Definition cum (e : sess) (st : c4) : c4 := c4_map2 add64 (c4_map2 sub64 st (base e)) (prior e).
 Definition regressed (v : variant) (e : sess) (st : c4) : bool :=
-  c4_any2 N.ltb st (base e) || (fix_counters v && c4_any2 N.ltb (cum e st) (last e)).
+  c4_any2 N.ltb st (base e) || (fix_counters v && c4_any2 N.ltb (cum e st) (floor v e)).
 Definition rebase (v : variant) (e : sess) (st : c4) : sess :=
-  if regressed v e st then Sess (ifx e) (hfx e) (last e) c4z (last e) (pending e) else e.
+  if regressed v e st then Sess (ifx e) (hfx e) (last e) (hw e) c4z (floor v e) (pending e) else e.
 (* applyVPPCounters: new session state and the cumulative values returned *)
 Definition apply (v : variant) (e : sess) (st : c4) : sess * c4 :=
   let e' := rebase v e st in (e', cum e' st).
@@ -102,17 +116,17 @@ Definition l2_reading (e : sess) (sn : l2snap) : option c4 :=
       let db := match d with Some x => x | None => (0, 0) end in
       Some (C4 (fst ub) (fst db) (snd ub) (snd db))
   end.
-Definition reading (g tick : bool) (e : sess) (sn : snaps) : option c4 :=
-  if g && tick then l2_reading e (l2 sn) else lookup_stats (ifs sn) (ifx e).
+Definition reading (v : variant) (g tick : bool) (e : sess) (sn : snaps) : option c4 :=
+  if g && (tick || fix_l2stop v) then l2_reading e (l2 sn) else lookup_stats (ifs sn) (ifx e).
 
 (* sendAccountingUpdate / handleSessionRelease: last-reported unless a reading is present *)
 Definition report (v : variant) (g tick : bool) (e : sess) (sn : snaps) : sess * c4 :=
-  match reading g tick e sn with
+  match reading v g tick e sn with
   | Some st => apply v e st
-  | None => (e, last e)
+  | None => (e, floor v e)
   end.
 Definition report_wraps (v : variant) (g tick : bool) (e : sess) (sn : snaps) : bool :=
-  match reading g tick e sn with
+  match reading v g tick e sn with
   | Some st => apply_wraps v e st
   | None => false
   end.
@@ -140,7 +154,7 @@ Inductive out :=
 | Interim (c : c4) (ok : bool)
 | Stop (c : c4).
 
-Definition confirm (e : sess) (i h : N) : sess := Sess i h (last e) (base e) (prior e) false.
+Definition confirm (e : sess) (i h : N) : sess := Sess i h (last e) (hw e) (base e) (prior e) false.
 
 Definition lstep (v : variant) (g : bool) (s : sst) (ev : sev) : sst * list out :=
   match ev with
@@ -166,18 +180,20 @@ Definition lstep (v : variant) (g : bool) (s : sst) (ev : sev) : sst * list out 
       if inb s then
         match cache s with
         | Some e =>
-            let (e', c) := report v g true e sn in
+            let (e0, c) := report v g true e sn in
+            (* fix_sent: lastSent := c and checkpoint BEFORE the send, whatever its outcome *)
+            let e' := if fix_sent v then Sess (ifx e0) (hfx e0) (last e0) c (base e0) (prior e0) (pending e0) else e0 in
             if ok then
-              let e'' := Sess (ifx e') (hfx e') c (base e') (prior e') (pending e') in   (* advanceLastReported *)
+              let e'' := Sess (ifx e') (hfx e') c (hw e') (base e') (prior e') (pending e') in   (* advanceLastReported *)
               (Sst true (Some e'') (Some e''), [Interim c true])              (* + checkpoint *)
-            else (Sst true (Some e') (db s), [Interim c false])
+            else (Sst true (Some e') (if fix_sent v then Some e' else db s), [Interim c false])
         | None => (s, [])
         end
       else (s, [])
   | ERestart =>
       (Sst false
            (match db s with
-            | Some d => Some (Sess (ifx d) 0 (last d) (base d) (prior d) true)   (* the handoff index is not in the checkpoint *)
+            | Some d => Some (Sess (ifx d) 0 (last d) (hw d) (base d) (prior d) true)   (* the handoff index is not in the checkpoint *)
             | None => None end)
            (db s), [])
   | EPrune past =>
@@ -257,40 +273,45 @@ Definition gstep (v : variant) (bk : list N) (tys : list bool) (g : list sst) (e
      m_pers  the open accounting survives a process restart (a checkpoint was written for it)
      m_pend  restored from a checkpoint by a restart and not yet re-announced
      m_ack   the cumulative values last acknowledged by the backend *)
-Record mst := Mst { m_open : bool; m_pers : bool; m_pend : bool; m_ack : c4 }.
-Definition mst0 : mst := Mst false false false c4z.
+Record mst := Mst { m_open : bool; m_pers : bool; m_pend : bool; m_ack : c4; m_sent : c4 }.
+Definition mst0 : mst := Mst false false false c4z c4z.
 
-Definition mon_step (m : mst) (ev : sev) (o : list out) : option mst :=
+(* fs = the component keeps (and persists) a high-water mark of every value sent (variant fix_sent): then every
+   report must also be >= the last value SENT, and a sent Interim makes the accounting survive a restart *)
+Definition ge_floor (fs : bool) (m : mst) (c : c4) : bool :=
+  c4_leb (m_ack m) c && (negb fs || c4_leb (m_sent m) c).
+
+Definition mon_step (fs : bool) (m : mst) (ev : sev) (o : list out) : option mst :=
   match ev with
   | EActive _ _ =>
       if m_open m then
-        match o with [] => Some (Mst true (m_pers m) false (m_ack m)) | _ => None end   (* never a second Start *)
-      else match o with [Start] => Some (Mst true true false c4z) | _ => None end       (* first Active: one Start *)
+        match o with [] => Some (Mst true (m_pers m) false (m_ack m) (m_sent m)) | _ => None end   (* never a second Start *)
+      else match o with [Start] => Some (Mst true true false c4z c4z) | _ => None end             (* first Active: one Start *)
   | ERestored _ _ =>
       match o with
-      | [] => if m_open m then Some (Mst true (m_pers m) false (m_ack m))
-              else Some (Mst true false false c4z)                                      (* restore never sends Start *)
+      | [] => if m_open m then Some (Mst true (m_pers m) false (m_ack m) (m_sent m))
+              else Some (Mst true false false c4z c4z)                                            (* restore never sends Start *)
       | _ => None
       end
   | EReleased _ =>
       if m_open m then
         match o with
-        | [Stop c] => if c4_leb (m_ack m) c then Some mst0 else None                   (* exactly one Stop, not below the last report *)
+        | [Stop c] => if ge_floor fs m c then Some mst0 else None        (* exactly one Stop, not below the last report *)
         | _ => None
         end
-      else match o with [] => Some mst0 | _ => None end                                 (* nothing to stop: no Stop *)
+      else match o with [] => Some mst0 | _ => None end                  (* nothing to stop: no Stop *)
   | ETick _ ok =>
       if m_open m && negb (m_pend m) then
         match o with
         | [Interim c ok'] =>
-            if Bool.eqb ok ok' && c4_leb (m_ack m) c
-            then Some (if ok then Mst true true false c else m) else None
+            if Bool.eqb ok ok' && ge_floor fs m c
+            then Some (Mst true (m_pers m || ok || fs) false (if ok then c else m_ack m) c) else None
         | _ => None
         end
       else match o with [] => Some m | _ => None end
   | ERestart =>
       match o with
-      | [] => if m_open m && m_pers m then Some (Mst true true true (m_ack m)) else Some mst0
+      | [] => if m_open m && m_pers m then Some (Mst true true true (m_ack m) (m_sent m)) else Some mst0
       | _ => None
       end
   | EPrune past =>
@@ -300,13 +321,13 @@ Definition mon_step (m : mst) (ev : sev) (o : list out) : option mst :=
       end
   end.
 
-Fixpoint mon_run (m : mst) (t : list (sev * list out)) : option mst :=
+Fixpoint mon_run (fs : bool) (m : mst) (t : list (sev * list out)) : option mst :=
   match t with
   | [] => Some m
-  | (ev, o) :: r => match mon_step m ev o with Some m' => mon_run m' r | None => None end
+  | (ev, o) :: r => match mon_step fs m ev o with Some m' => mon_run fs m' r | None => None end
   end.
-Definition accepted (t : list (sev * list out)) : bool :=
-  match mon_run mst0 t with Some _ => true | None => false end.
+Definition accepted (fs : bool) (t : list (sev * list out)) : bool :=
+  match mon_run fs mst0 t with Some _ => true | None => false end.
 
 (* ------------------------------------------------------------------ *)
 (* Plain statements over the call stream, independent of the monitor. *)
@@ -380,3 +401,64 @@ Definition through_wire (o : out) : out :=
 (* octets are u64 by type; packet counters above 2^32 cannot be represented in RADIUS *)
 Definition wire_range (c : c4) : bool :=
   N.ltb (rxb c) W && N.ltb (txb c) W && N.ltb (rxp c) W32 && N.ltb (txp c) W32.
+
+(* "from one report to the next": every Interim and the Stop carry values not below the last report SENT in the
+   bracket, acknowledged or not (a send that failed may still have been received) *)
+Fixpoint nondecreasing_sent (prev : c4) (l : list out) : bool :=
+  match l with
+  | [] => true
+  | Start :: r => nondecreasing_sent c4z r
+  | Interim c _ :: r => c4_leb prev c && nondecreasing_sent c r
+  | Stop c :: r => c4_leb prev c && nondecreasing_sent c4z r
+  end.
+Definition all_acked (evs : list sev) : bool :=
+  forallb (fun ev => match ev with ETick _ false => false | _ => true end) evs.
+
+(* the stream of a session that is never restored: a prefix of (Start Interim* Stop)*; opened = inside a bracket *)
+Fixpoint strict (opened : bool) (l : list out) : bool :=
+  match l with
+  | [] => true
+  | Start :: r => if opened then false else strict true r
+  | Interim _ _ :: r => opened && strict true r
+  | Stop _ :: r => opened && strict false r
+  end.
+Definition never_restored (evs : list sev) : bool :=
+  forallb (fun ev => match ev with ERestored _ _ => false | _ => true end) evs.
+
+(* ------------------------------------------------------------------ *)
+(* Asynchronous delivery.  Every provider call is made from its own goroutine (go StartAccounting,
+   go sendAccountingUpdate, go StopAccounting): the order in which calls are ISSUED by the handlers and the order in
+   which they ARRIVE at the provider may differ.  A delayed call sits in [held]; hs = "Start calls are being delayed"
+   (the scheduler / a slow backend; the harness forces it with a gate in the provider fake).
+   HEAD: a delayed call delays nothing else.  fix_order: a call queues behind every earlier call of its session. *)
+Definition delayed (hs : bool) (o : out) : bool := match o with Start => hs | _ => false end.
+Definition is_nil {A} (l : list A) : bool := match l with [] => true | _ => false end.
+Definition issue1 (v : variant) (hs : bool) (held : list out) (o : out) : list out * list out :=
+  if (if fix_order v then negb (is_nil held) || delayed hs o else delayed hs o)
+  then (held ++ [o], []) else (held, [o]).
+Fixpoint issue (v : variant) (hs : bool) (held : list out) (os : list out) : list out * list out :=
+  match os with
+  | [] => (held, [])
+  | o :: r => let (h1, a1) := issue1 v hs held o in
+              let (h2, a2) := issue v hs h1 r in (h2, a1 ++ a2)
+  end.
+Inductive dev := DEv (ev : sev) | DHold (hs : bool) | DRelease.
+Record dst := Dst { d_comp : sst; d_hs : bool; d_held : list out }.
+Definition dst0 : dst := Dst sst0 false [].
+(* one step: new state, calls issued, calls arrived *)
+Definition dstep (v : variant) (g : bool) (d : dst) (x : dev) : dst * list out * list out :=
+  match x with
+  | DEv ev => let (s', os) := lstep v g (d_comp d) ev in
+              let (h', arr) := issue v (d_hs d) (d_held d) os in
+              (Dst s' (d_hs d) h', os, arr)
+  | DHold hs => (Dst (d_comp d) hs (d_held d), [], [])
+  | DRelease => (Dst (d_comp d) (d_hs d) [], [], d_held d)
+  end.
+Fixpoint drun (v : variant) (g : bool) (d : dst) (xs : list dev) : dst * list out * list out :=
+  match xs with
+  | [] => (d, [], [])
+  | x :: r => let '(d1, i1, a1) := dstep v g d x in
+              let '(d2, i2, a2) := drun v g d1 r in (d2, i1 ++ i2, a1 ++ a2)
+  end.
+Definition dev_events (xs : list dev) : list sev :=
+  flat_map (fun x => match x with DEv ev => [ev] | _ => [] end) xs.
